@@ -42,7 +42,7 @@ def demo_build_cmd(demo_path, wt):
     m = re.search(r"((?:clang\+\+|g\+\+)[^\n]*)", txt)
     if not m:
         return None
-    cmd = m.group(1).strip()
+    cmd = m.group(1).strip().split("&&")[0].strip()
     cmd = re.sub(r"/tmp/wt-[A-Za-z0-9]+", wt, cmd)
     cmd = cmd.replace("WT/", wt + "/").replace("$WT", wt).replace("${WT}", wt)
     cmd = re.sub(r"/tmp/out-[A-Za-z0-9]+/m\d+/demo\.cpp", demo_path, cmd)
